@@ -52,7 +52,8 @@ func (s *Session) reconcile(op kernel.Op, kind, client string) {
 			if IsPair(kind) {
 				if err := pairMatches(cur); err != nil {
 					s.violate("victim-old-or-new", site, fmt.Sprintf("%s: current private and public halves do not belong together after the fault (%v)", id, err))
-					// adopt nothing: the pair is a mixture; keep comparing the rest
+					// adopt nothing: the pair is a mixture, reported once
+					s.broken[id] = true
 					return
 				}
 			}
@@ -74,6 +75,7 @@ func (s *Session) reconcile(op kernel.Op, kind, client string) {
 			s.W.Probe("fault-gen-absent")
 		}
 	case ODCur:
+		s.relaxed[id] = true
 		if newest == nil || !newest.Alive {
 			return
 		}
@@ -89,7 +91,8 @@ func (s *Session) reconcile(op kernel.Op, kind, client string) {
 			s.W.Probe("fault-destroy-not-applied")
 		}
 	case ODRot:
-		if len(op.A) == 0 || allErr != nil {
+		s.relaxed[id] = true
+		if !HasReadAll(kind) || allErr != nil {
 			return
 		}
 		// apply() stored the targeted key number in the op copy only when the
@@ -97,7 +100,6 @@ func (s *Session) reconcile(op kernel.Op, kind, client string) {
 		for _, k := range ring.Rotated() {
 			if !contains(all, k.Val.Secret) {
 				k.Alive = false
-				k.Maybe = true
 				s.lastMut = ODRot
 				s.W.Probe("fault-destroy-rotated-applied")
 				break // at most one key may have gone
